@@ -32,6 +32,9 @@ type Plan struct {
 	// the next read fails with the errno (the stream breaks; it is not an EOF).
 	ErrNo    string `json:"errno,omitempty"`
 	ErrAfter int    `json:"err_after,omitempty"`
+	// DelaysUs: simulated microseconds the source takes before successive
+	// reads return (cycled): a slow upstream.
+	DelaysUs []int64 `json:"delays_us,omitempty"`
 }
 
 type Stream struct {
@@ -130,6 +133,13 @@ type Journal struct {
 	BlockedLocks int    `json:"blocked_locks"`
 	ChanMaxLen   int    `json:"chan_max_len"`
 	Abandoned    int    `json:"abandoned"` // tasks still alive when main returned
+	// simulated time
+	TimersSet   int   `json:"timers_set,omitempty"`
+	TimersFired int   `json:"timers_fired,omitempty"`
+	ClockJumps  int   `json:"clock_jumps,omitempty"` // all tasks blocked: clock advanced to the next timer
+	JumpedUs    int64 `json:"jumped_us,omitempty"`
+	SimTimeUs   int64 `json:"sim_time_us"` // simulated time at exit (ticks + jumps), microseconds
+	DelayedReads int  `json:"delayed_reads,omitempty"`
 	Note         string `json:"note,omitempty"`
 }
 
@@ -215,6 +225,7 @@ func finish(verdict string, code int) {
 	journal.Verdict = verdict
 	journal.ExitCode = code
 	journal.Ticks = ticks
+	journal.SimTimeUs = int64(simClock() / 1000)
 	journal.MapSites = siteStat
 	for _, s := range allStreams {
 		journal.Streams = append(journal.Streams, &s.stat)
